@@ -395,6 +395,15 @@ func init() {
 			for i := 0; i < raceSoaks(tier); i++ {
 				cs = append(cs, CaseSpec{Kind: "soak", P: map[string]int64{"n": int64(4 + i%2), "txs": 240, "pace_us": 30000}, S: map[string]string{"race": "1"}})
 			}
+			// several readers per node that re-read delivered blocks through the
+			// node's block API as fast as they can while consensus goes on
+			hammers := 1
+			if tier == "thorough" {
+				hammers = 6
+			}
+			for i := 0; i < hammers; i++ {
+				cs = append(cs, CaseSpec{Kind: "soak", P: map[string]int64{"n": int64(3 + i%3), "txs": 400, "pace_us": 2000, "readers": 3, "hammer": 1}})
+			}
 			return cs
 		},
 		Run: func(cs CaseSpec) *CaseResult {
